@@ -13,6 +13,7 @@ import multiprocessing
 import os
 import random
 import re
+import resource
 import shutil
 import signal
 import subprocess
@@ -44,7 +45,7 @@ def case_rng(seed, pid, idx, salt=''):
 # process execution
 
 class Run:
-    __slots__ = ('cmd', 'rc', 'sig', 'out', 'err', 'timed_out', 'wall', 'san')
+    __slots__ = ('cmd', 'rc', 'sig', 'out', 'err', 'timed_out', 'wall', 'san', 'cpu')
 
     def __init__(self):
         self.cmd = None
@@ -54,6 +55,7 @@ class Run:
         self.err = b''
         self.timed_out = False
         self.wall = 0.0
+        self.cpu = 0.0
         self.san = None      # crash key or None
 
     def text(self):
@@ -126,6 +128,7 @@ def run_proc(cmd, cwd, env_extra=None, stdin=None, timeout=DEFAULT_TIMEOUT, clea
             else:
                 env[k] = v
     t0 = time.time()
+    ru0 = resource.getrusage(resource.RUSAGE_CHILDREN)
     try:
         p = subprocess.Popen(r.cmd, cwd=cwd, env=env, stdin=subprocess.PIPE if stdin is not None else subprocess.DEVNULL,
                              stdout=subprocess.PIPE, stderr=subprocess.PIPE, start_new_session=True)
@@ -146,6 +149,9 @@ def run_proc(cmd, cwd, env_extra=None, stdin=None, timeout=DEFAULT_TIMEOUT, clea
         except Exception:
             r.out, r.err = b'', b''
     r.wall = time.time() - t0
+    # CPU seconds the child (and what it waited for) consumed: a worker runs one child at a time, so the delta is this child's
+    ru1 = resource.getrusage(resource.RUSAGE_CHILDREN)
+    r.cpu = (ru1.ru_utime - ru0.ru_utime) + (ru1.ru_stime - ru0.ru_stime)
     rc = p.returncode
     if rc is not None and rc < 0:
         r.sig = -rc
